@@ -1,6 +1,11 @@
 """C12 — FITS region tables round-trip every supported pixel region."""
 import ast
+import atexit
+import hashlib
+import json
 import os
+import random
+import shutil
 import tempfile
 import warnings
 from fractions import Fraction
@@ -259,35 +264,76 @@ def _roundtrip_memory(regs):
     return t, ws, res, objs
 
 
-def _roundtrip_file(regs):
-    """-> (result, stage, table read back from the file (canonical) or None)"""
+# One FIXED scratch file name per worker process, reused by every case of the run (a reader or writer that
+# keeps state per file NAME shows up only when a name is reused).  The base directory is private, created by
+# the parent in `generate()` and removed when the parent exits; nothing under it is needed afterwards.
+_SCRATCH_BASES = []
+_LOCAL_SCRATCH = {}
+
+
+def _cleanup_scratch():
+    for d in _SCRATCH_BASES:
+        shutil.rmtree(d, ignore_errors=True)
+    del _SCRATCH_BASES[:]
+
+
+def new_scratch_base():
+    d = tempfile.mkdtemp(prefix='c12_')
+    if not _SCRATCH_BASES:
+        atexit.register(_cleanup_scratch)
+    _SCRATCH_BASES.append(d)
+    return d
+
+
+def scratch_path(base, name):
+    """<base>/w<pid>/<name>; without a base (a replay) a private directory of this process."""
+    pid = os.getpid()
+    if base is None or not os.path.isdir(base):
+        if pid not in _LOCAL_SCRATCH:
+            _LOCAL_SCRATCH[pid] = new_scratch_base()
+        base = _LOCAL_SCRATCH[pid]
+    d = os.path.join(base, f'w{pid}')
+    os.makedirs(d, exist_ok=True)
+    return os.path.join(d, name)
+
+
+def second_list(case):
+    """the list B that is written over the path after list A: the one drawn in generate(), or (corpus and old
+    replay cases) one derived deterministically from A, so that every case replays on its own."""
+    if case.get('regions_b') is not None:
+        return case['regions_b']
+    h = hashlib.sha1(json.dumps(case['regions'], sort_keys=True).encode()).hexdigest()
+    return gen_list(random.Random(int(h[:12], 16)))['regions']
+
+
+def _roundtrip_file(regs, fn):
+    """write to the (possibly existing) path `fn` with overwrite=True and read it back.
+    -> (result, stage, table read back from the file (canonical) or None)"""
     from astropy.io import fits
     from astropy.table import QTable
     from regions import Regions
-    with tempfile.TemporaryDirectory(prefix='c12_') as d:
-        fn = os.path.join(d, 'regions.fits')
-        try:
-            with warnings.catch_warnings():
-                warnings.simplefilter('ignore')
-                Regions(regs).write(fn, format='fits')
-        except Exception as e:
-            return {'err': type(e).__name__, 'msg': str(e)[:200]}, 'write', None
-        back = None
-        try:
-            with fits.open(fn) as hdul:
-                for hdu in hdul:
-                    if hdu.name == 'REGION':
-                        back = canon_table(QTable.read(hdu))
-                        break
-        except Exception as e:
-            back = ({'err': type(e).__name__}, {})
-        try:
-            with warnings.catch_warnings():
-                warnings.simplefilter('ignore')
-                regs2 = Regions.read(fn, format='fits')
-            return {'ok': [canon_region(r) for r in regs2]}, 'read', back
-        except Exception as e:
-            return {'err': type(e).__name__, 'msg': str(e)[:200]}, 'read', back
+    try:
+        with warnings.catch_warnings():
+            warnings.simplefilter('ignore')
+            Regions(regs).write(fn, format='fits', overwrite=True)
+    except Exception as e:
+        return {'err': type(e).__name__, 'msg': str(e)[:200]}, 'write', None
+    back = None
+    try:
+        with fits.open(fn) as hdul:
+            for hdu in hdul:
+                if hdu.name == 'REGION':
+                    back = canon_table(QTable.read(hdu))
+                    break
+    except Exception as e:
+        back = ({'err': type(e).__name__}, {})
+    try:
+        with warnings.catch_warnings():
+            warnings.simplefilter('ignore')
+            regs2 = Regions.read(fn, format='fits')
+        return {'ok': [canon_region(r) for r in regs2]}, 'read', back
+    except Exception as e:
+        return {'err': type(e).__name__, 'msg': str(e)[:200]}, 'read', back
 
 
 def build_table(spec):
@@ -619,6 +665,7 @@ class Check(PropertyCheck):
     lean_targets = ['RegionsVerif.Props.C12']
     namespaces = ['RegionsVerif.Props.C12']
     parallel = True
+    _scratch = None            # base directory of the per-worker scratch files (set by generate())
     rule = ('lists of 1..8 regions drawn from the 8 FITS-representable pixel classes (point, circle, ellipse, circle/'
             'ellipse annulus, rotated rectangle, polygon with 3..9 vertices, regular polygon) mixed so that X/Y/R need '
             'padding, plus ~10% unrepresentable ones (sky regions, line, text, rectangle annulus, compound); '
@@ -630,7 +677,9 @@ class Check(PropertyCheck):
             'rotation angles in deg/rad/arcmin/arcsec/hourangle: all degrees, one unit per list, or mixed within the list '
             '(first row with no angle / with another unit than the rest); '
             'include in {absent, True, False, 0, 1} (per-list modes), component in {absent, ints (duplicates allowed), '
-            'partially present}; every list goes through the in-memory table AND a real file in a temp dir; '
+            'partially present}; every list goes through the in-memory table AND a real file: one fixed scratch path per '
+            'worker, reused by all cases; each case writes list A, reads it, overwrites the SAME path with a different '
+            'list B (overwrite=True) and reads again - both reads must equal the in-memory parse(serialize()); '
             'reader side: tables in box/rotbox/rectangle/rotrectangle and all other notations, padded or not, '
             'upper case, with/without COMPONENT, shuffled columns, and a malformed stream (unknown/unsupported '
             'shape names, missing/extra columns, non-positive sizes, too-short vectors, empty names). '
@@ -733,6 +782,13 @@ class Check(PropertyCheck):
             cases.append(gen_table(rng))
         for _ in range(n_bad):
             cases.append(gen_table(rng, malformed=True))
+        # the file clause as a SEQUENCE on one path: list A is written and read, then a different list B (drawn from
+        # the same generators: other length / classes / flags / components) is written over it and read
+        for c in cases:
+            if c['kind'] == 'list':
+                b = gen_carrier_list(rng) if rng.random() < 0.15 else gen_list(rng)
+                c['regions_b'] = b['regions']
+        self._scratch = new_scratch_base()
         return cases
 
     # ---------------------------------------------------------------- real
@@ -745,7 +801,8 @@ class Check(PropertyCheck):
         t, ws, parsed, objs = _roundtrip_memory(regs)
         table, units = canon_table(t)
         out = {'inputs': inputs, 'table': table, 'units': units, 'warnings': ws, 'parsed': parsed}
-        fres, stage, back = _roundtrip_file(regs)
+        fn = scratch_path(self._scratch, 'regions.fits')
+        fres, stage, back = _roundtrip_file(regs, fn)
         out['file'] = fres
         out['file_stage'] = stage
         out['file_table_same'] = None if back is None else (back[0] == dict(table, comp_object=False)
@@ -765,6 +822,10 @@ class Check(PropertyCheck):
             out['culprits'] = culprits
             rest = [r for i, r in enumerate(regs) if i not in culprits]
             _, _, out['parsed_rest'], _ = _roundtrip_memory(rest)
+        # the SAME path rewritten with another list and read again
+        regs_b = [build_region(s) for s in second_list(case)]
+        _, _, out['parsed_b'], _ = _roundtrip_memory(regs_b)
+        out['file_b'], out['file_b_stage'], _ = _roundtrip_file(regs_b, fn)
         # the inputs must not have been changed by all this (cheap guard; C13 owns the full claim)
         after = [canon_region(r) for r in regs]
         out['inputs_unchanged'] = after == inputs
@@ -783,18 +844,27 @@ class Check(PropertyCheck):
         else:
             out['again'] = None
         # the same table through a real file with other HDUs around it
-        with tempfile.TemporaryDirectory(prefix='c12_') as d:
-            fn = os.path.join(d, 'table.fits')
-            try:
-                hdus = [fits.PrimaryHDU(), fits.ImageHDU(np.zeros((2, 2)), name='IMAGE'),
-                        fits.BinTableHDU(data=t, header=fits.Header({'EXTNAME': 'REGION'}))]
-                fits.HDUList(hdus).writeto(fn)
-                with warnings.catch_warnings():
-                    warnings.simplefilter('ignore')
-                    regs2 = Regions.read(fn, format='fits')
-                out['file'] = {'ok': [canon_region(r) for r in regs2]}
-            except Exception as e:
-                out['file'] = {'err': type(e).__name__, 'msg': str(e)[:200]}
+        fn = scratch_path(self._scratch, 'table.fits')      # one name per worker, rewritten by every table case
+        try:
+            # first a sentinel table on the same path (written and READ), then the case's table over it
+            import astropy.units as u
+            from astropy.table import QTable
+            sent = QTable({'SHAPE': ['point'], 'X': [-12345.5] * u.pix, 'Y': [54321.25] * u.pix})
+            fits.HDUList([fits.PrimaryHDU(), fits.BinTableHDU(data=sent, header=fits.Header({'EXTNAME': 'REGION'}))]
+                         ).writeto(fn, overwrite=True)
+            with warnings.catch_warnings():
+                warnings.simplefilter('ignore')
+                r0 = Regions.read(fn, format='fits')
+            out['sentinel'] = [canon_region(r) for r in r0]
+            hdus = [fits.PrimaryHDU(), fits.ImageHDU(np.zeros((2, 2)), name='IMAGE'),
+                    fits.BinTableHDU(data=t, header=fits.Header({'EXTNAME': 'REGION'}))]
+            fits.HDUList(hdus).writeto(fn, overwrite=True)
+            with warnings.catch_warnings():
+                warnings.simplefilter('ignore')
+                regs2 = Regions.read(fn, format='fits')
+            out['file'] = {'ok': [canon_region(r) for r in regs2]}
+        except Exception as e:
+            out['file'] = {'err': type(e).__name__, 'msg': str(e)[:200]}
         return out
 
     # ---------------------------------------------------------------- model
@@ -1044,6 +1114,19 @@ class Check(PropertyCheck):
             if strip(real['file']) != strip(real['parsed']):
                 V.append({'kind': 'file_differs_from_memory', 'where': 'file',
                           'detail': f'{strip(real["file"])} != {strip(real["parsed"])}'})
+        # the same path rewritten (overwrite=True) with list B: the second read must give B, not A
+        if 'file_b' in real:
+            strip = self._norm_regs
+            if real['file_b_stage'] == 'write' and 'err' in real['file_b']:
+                V.append({'kind': 'file_write_failed', 'where': 'file (rewrite)', 'exc': real['file_b']['err'],
+                          'detail': f'Regions.write(..., overwrite=True) of the second list raised '
+                                    f'{real["file_b"]["err"]}: {real["file_b"].get("msg")}'})
+            elif strip(real['file_b']) != strip(real['parsed_b']):
+                stale = strip(real['file_b']) == strip(real['file'])
+                V.append({'kind': 'file_differs_from_memory', 'where': 'file (rewritten path)', 'stale': stale,
+                          'detail': ('the path was rewritten with another list and read again: the read gives '
+                                     + ('the regions of the OLD file' if stale else 'something else')
+                                     + f': {strip(real["file_b"])} != {strip(real["parsed_b"])}')[:1500]})
         # fixed point
         if real['again'] is not None and not self._same_by_value(real['again'], real['parsed']):
             V.append(self._fixed_point_violation(real['parsed'], real['again']))
@@ -1084,6 +1167,10 @@ class Check(PropertyCheck):
         V = []
         spec = case['table']
         strip = self._norm_regs
+        if 'sentinel' in real and [(r['kind'], r['xs'], r['ys']) for r in real['sentinel']] != \
+                [('point', ['-24691/2'], ['217285/4'])]:
+            V.append({'kind': 'file_differs_from_memory', 'where': 'file (sentinel on the reused path)',
+                      'detail': f'a one-point table written to the scratch path was read back as {real["sentinel"]}'})
         if strip(real['file']) != strip(real['parsed']):
             V.append({'kind': 'file_differs_from_memory', 'where': 'file',
                       'detail': f'{strip(real["file"])} != {strip(real["parsed"])}'})
